@@ -219,6 +219,11 @@ func (ci *cinst) blockingB(f *ast.File) bool {
 		}
 		return in
 	}
+	one := func(st ast.Stmt) { // init / post statements of if, for, switch
+		if st != nil {
+			list([]ast.Stmt{st})
+		}
+	}
 	ast.Inspect(f, func(n ast.Node) bool {
 		switch x := n.(type) {
 		case *ast.BlockStmt:
@@ -227,8 +232,21 @@ func (ci *cinst) blockingB(f *ast.File) bool {
 			x.Body = list(x.Body)
 		case *ast.CommClause:
 			x.Body = list(x.Body)
+		case *ast.IfStmt:
+			one(x.Init)
+		case *ast.ForStmt:
+			one(x.Init)
+			one(x.Post)
+		case *ast.SwitchStmt:
+			one(x.Init)
+		case *ast.TypeSwitchStmt:
+			one(x.Init)
 		}
 		return true
 	})
+	// receives that are operands of larger expressions (f(<-ch), return <-ch, a + <-ch)
+	if rewriteRecvInExpr(f, "vtimeb") {
+		changed = true
+	}
 	return changed
 }
